@@ -114,6 +114,9 @@ def make_registers(layout: dict):
     if len(obj._registers) != 0:
         raise HarnessError("a Registers object for an unknown family is expected to start empty")
     obj._load_from_spec(spec, groups)
+    for r in layout["regs"]:
+        if r.get("reverse"):
+            obj.get_reg(r["uid"]).reverse = True
     return obj
 
 
@@ -187,16 +190,22 @@ class Model:
             pos = total - (j + 1) * w if g.get("reverse_subregs_order") else j * w
             self.val[u] = (value >> pos) & ((1 << w) - 1)
 
+    def ext(self, r: dict) -> int:
+        """The external view of a register's stored value (byte-reversed for a register with reversed byte order)."""
+        v = self.val[r["uid"]]
+        return bswap(v, r["width"] // 8) if r.get("reverse") else v
+
     def bf_get(self, r: dict, bi: int) -> int:
         off = sum(b["width"] for b in r["bitfields"][:bi])
         b = r["bitfields"][bi]
-        return ((self.val[r["uid"]] >> off) & ((1 << b["width"]) - 1)) << b.get("shift", 0)
+        return ((self.ext(r) >> off) & ((1 << b["width"]) - 1)) << b.get("shift", 0)
 
     def bf_store(self, r: dict, bi: int, stored: int) -> None:
         off = sum(b["width"] for b in r["bitfields"][:bi])
         b = r["bitfields"][bi]
         mask = ((1 << b["width"]) - 1) << off
-        self.val[r["uid"]] = (self.val[r["uid"]] & ~mask) | ((stored << off) & mask)
+        e = (self.ext(r) & ~mask) | ((stored << off) & mask)
+        self.val[r["uid"]] = bswap(e, r["width"] // 8) if r.get("reverse") else e
 
 
 # ----------------------------------------------------------------------------------------------
@@ -222,8 +231,8 @@ def compare(obj, m: Model, label: str) -> list:
         if got != want:
             diffs.append(("register-value", f"{label}: register {r['name']} raw value {got:#x}, model {want:#x}"))
         got2 = reg.get_value(raw=False)
-        if got2 != want:
-            diffs.append(("register-value", f"{label}: register {r['name']} value {got2:#x}, model {want:#x}"))
+        if got2 != m.ext(r):
+            diffs.append(("register-value", f"{label}: register {r['name']} value {got2:#x}, model {m.ext(r):#x}"))
         for bi, b in enumerate(r.get("bitfields", [])):
             bf = reg.get_bitfield(b["uid"])
             gv = bf.get_value()
@@ -381,7 +390,7 @@ class Run:
                 label += f"({r['name']}, {pv!r}, raw={raw})"
                 res = self.attempt(lambda: reg.set_value(pv, raw=raw), fits, label, "Register.set_value" + (":negative" if iv < 0 else ""))
                 if res == "ok" and fits:
-                    m.val[r["uid"]] = iv
+                    m.val[r["uid"]] = bswap(iv, r["width"] // 8) if (r.get("reverse") and not raw) else iv
                     changes += 1
                 elif res == "ok":
                     self.resync(obj, m)
@@ -503,10 +512,10 @@ class Run:
                     site = ("RegsBitField.set_value" if name == "bf_set" else "RegsBitField.set_enum_value") + (":negative" if iv < 0 else "")
                     if name == "bf_set":
                         label += f"({r['name']}.{b['uid']}, {pv!r})"
-                        res = self.attempt(lambda: bf.set_value(pv, raw=bool(op.get("raw"))), fits, label, site)
+                        res = self.attempt(lambda: bf.set_value(pv, raw=bool(op.get("raw")) and not r.get("reverse")), fits, label, site)  # (raw on a byte-reversed register writes the stored view, which the fields are not read from: not generated)
                     else:
                         arg = pv
-                        if op.get("by") == "rawstr":
+                        if op.get("by") == "rawstr" and not r.get("reverse"):  # (RAW: writes the stored view, see bf_set)
                             arg = "RAW:" + (hex(stored) if stored >= 0 else str(stored))
                         elif op.get("by") == "str" and isinstance(pv, int):
                             arg = hex(pv) if pv >= 0 else str(pv)
@@ -855,7 +864,15 @@ def gen_layout(rng: random.Random) -> dict:
     if offset == 0:
         offset = 4
     # a register at offset 0 that is not first would be treated as an alias target only for offset != 0; keep offsets unique
-    return {"endianness": rng.choice(["big", "little"]), "regs": regs, "groups": groups, "fuse": rng.random() < 0.25}
+    fuse = rng.random() < 0.25
+    grouped = {u for g in groups for u in g["sub_regs"]}
+    if not fuse:
+        for r in regs:
+            # a register with reversed byte order (built programmatically: specifications have the flag on groups only): its
+            # bit-fields live in the external, byte-reversed view of the stored value
+            if r["uid"] not in grouped and r["width"] >= 16 and not r.get("reset") and not r.get("uncovered") and not any(b.get("reset") for b in r.get("bitfields", [])) and rng.random() < 0.15:
+                r["reverse"] = True
+    return {"endianness": rng.choice(["big", "little"]), "regs": regs, "groups": groups, "fuse": fuse}
 
 
 def gen_val(rng: random.Random) -> list:
